@@ -132,3 +132,46 @@ def smart_tiers(F, rep, rule):
     if bad: rep.bad(rule, "tier-law", "tier selection deviates from the documented law (dirty -> +dev; distance or pre&post -> +post; pre -> prerelease; else base): %s" % bad[:2], st.where())
     else: rep.ok(rule, "tier selection equals the documented law on all 16 assignments", nontrivial_key="law")
     return ts
+
+
+PRESETS = {
+    "semver_str": {"target": "SanitizeTarget::Str", "separator": ".", "lowercase": False, "keep_zeros": False, "max_length": None},
+    "pep440_local_str": {"target": "SanitizeTarget::Str", "separator": ".", "lowercase": True, "keep_zeros": False, "max_length": None},
+    "uint": {"target": "SanitizeTarget::UInt", "separator": None, "lowercase": False, "keep_zeros": False, "max_length": None},
+    "key": {"target": "SanitizeTarget::Str", "separator": ".", "lowercase": True, "keep_zeros": False, "max_length": None},
+}
+
+def preset_value(F, name, depth=0):
+    f = F.fn("crate::utils::sanitize::Sanitizer::" + name)
+    if f is None or depth > 3: return None
+    ps = [p for p in mir.enum_paths(f) if f.blocks[p[-1]]["t"][0] == "ret"]
+    if len(ps) != 1: return None
+    r = mir.SymPath(f, ps[0]).ret()
+    if r[0] == "call" and str(r[1]).startswith("crate::utils::sanitize::Sanitizer::"):
+        return preset_value(F, str(r[1]).rsplit("::", 1)[-1], depth + 1)
+    if r[0] != "agg": return None
+    out = {}
+    for k, v in r[2]:
+        t = mir.show(v)
+        if t.startswith("Option::Some("):
+            inner = t[len("Option::Some("):-1]
+            m = re.match(r"^to_string\('(.*)'\)$", inner)
+            out[k] = m.group(1) if m else (int(inner) if inner.isdigit() else inner)
+        elif t == "Option::None": out[k] = None
+        elif t in ("True", "False"): out[k] = (t == "True")
+        elif v[0] == "const": out[k] = v[1]
+        else: out[k] = t
+    return out
+
+def sanitizer_presets(F, rep, rule, names):
+    for nm in names:
+        got = preset_value(F, nm)
+        f = F.fn("crate::utils::sanitize::Sanitizer::" + nm)
+        if not rep.anchor(rule, "Sanitizer::" + nm, f): continue
+        rep.fn_seen(f)
+        want = PRESETS[nm]
+        if got is None:
+            rep.bad(rule, "unrecognised-shape:preset:" + nm, "cannot read the constant configuration of Sanitizer::%s" % nm, f.where()); continue
+        diff = {k: (got.get(k), v) for k, v in want.items() if got.get(k) != v}
+        if diff: rep.bad(rule, "preset-config:" + nm, "Sanitizer::%s is configured with %s (got, expected): e.g. a max_length silently truncates identifiers" % (nm, diff), f.where())
+        else: rep.ok(rule, "Sanitizer::%s = %s" % (nm, want), nontrivial_key="preset" + nm)
